@@ -432,6 +432,7 @@ func clip(s string, n int) string {
 //	scsv         cipher-suite list with the signalling values 0x5600 / 0x00ff and unknown code points
 //	psk-padding  padding extension + non-empty FakePreSharedKeyExtension, unpadded length in BoringPadding's range
 //	psk          non-empty FakePreSharedKeyExtension without padding
+//	ech          TLS 1.3 hello with a GREASE ECH extension of non-default enc / payload sizes
 //	holes        non-default sizes of the per-connection holes (session ticket extension, ALPN, cookie-less)
 func (rn *runner) genSpec(shape string) *tls.ClientHelloSpec {
 	r := rn.r
@@ -458,6 +459,7 @@ func (rn *runner) genSpec(shape string) *tls.ClientHelloSpec {
 			return &tls.UtlsCompressCertExtension{Algorithms: []tls.CertCompressionAlgo{tls.CertCompressionBrotli}}
 		},
 		func() tls.TLSExtension { return &tls.FakeRecordSizeLimitExtension{Limit: 0x4001} },
+		func() tls.TLSExtension { return rn.greaseECH() },
 		func() tls.TLSExtension { return &tls.ApplicationSettingsExtension{SupportedProtocols: []string{"h2"}} },
 	}
 	s := &tls.ClientHelloSpec{CompressionMethods: []byte{0}}
@@ -479,8 +481,16 @@ func (rn *runner) genSpec(shape string) *tls.ClientHelloSpec {
 	if shape == "psk-padding" || shape == "psk" {
 		k = len(pool) // long enough for the padding range
 	}
+	hasECH := false
 	for _, i := range r.Perm(len(pool))[:k] {
-		s.Extensions = append(s.Extensions, pool[i]())
+		e := pool[i]()
+		if _, ok := e.(*tls.GREASEEncryptedClientHelloExtension); ok {
+			hasECH = true
+		}
+		s.Extensions = append(s.Extensions, e)
+	}
+	if shape == "ech" && !hasECH {
+		s.Extensions = append(s.Extensions, rn.greaseECH())
 	}
 	s.Extensions = append(s.Extensions, &tls.SupportedCurvesExtension{Curves: []tls.CurveID{tls.CurveID(g(r)), tls.X25519, tls.CurveP256}})
 	switch {
@@ -528,6 +538,27 @@ func (rn *runner) keyShares() []tls.KeyShare {
 	return []tls.KeyShare{grease(), {Group: tls.X25519}}
 }
 
+// greaseECH: a GREASE encrypted_client_hello whose per-connection parts have non-default sizes: the
+// encapsulated key of X25519 (32), P-256 (65), P-384 (97), P-521 (133) KEMs or generated (nil), payload
+// lengths other than Chrome's, every supported KDF / AEAD.
+func (rn *runner) greaseECH() *tls.GREASEEncryptedClientHelloExtension {
+	r := rn.r
+	e := &tls.GREASEEncryptedClientHelloExtension{
+		CandidateCipherSuites: []tls.HPKESymmetricCipherSuite{{KdfId: uint16(1 + r.Intn(3)), AeadId: uint16(1 + r.Intn(3))}},
+	}
+	if n := []int{0, 32, 65, 97, 133}[r.Intn(5)]; n > 0 {
+		e.EncapsulatedKey = make([]byte, n)
+		r.Read(e.EncapsulatedKey)
+	}
+	if r.Intn(4) != 0 {
+		e.CandidatePayloadLens = []uint16{[]uint16{1, 17, 32, 128, 160, 192, 223, 300}[r.Intn(8)]}
+	}
+	if r.Intn(2) == 0 {
+		e.CandidateConfigIds = []uint8{uint8(r.Intn(256))}
+	}
+	return e
+}
+
 func fakePSK(r *rand.Rand, n int) *tls.FakePreSharedKeyExtension {
 	e := &tls.FakePreSharedKeyExtension{}
 	for i := 0; i < n; i++ {
@@ -560,7 +591,7 @@ func pskParrotSpec(p parrot, r *rand.Rand) *tls.ClientHelloSpec {
 	return &spec
 }
 
-var shapes = []string{"tls13", "legacy", "legacy-sv", "scsv", "psk-padding", "psk", "tls13", "legacy", "scsv", "psk-padding"}
+var shapes = []string{"tls13", "legacy", "legacy-sv", "scsv", "psk-padding", "psk", "ech", "legacy", "scsv", "psk-padding", "ech", "tls13"}
 
 func run(c *vh.Ctx) {
 	rn := &runner{c: c, r: c.Rng}
